@@ -1,10 +1,94 @@
-import Huginn.Spec.SigText
+import Huginn.Lemmas.SigText
+import Huginn.Lemmas.SigTextHttp
 /-
-C06 — signature text round-trips; the database loads losslessly.  (theorems follow)
+C06 — signature text round-trips; the database loads losslessly.
+Property theorems only; helper lemmas live in `Huginn/Lemmas/SigText*.lean`.
 -/
 namespace Huginn.Props.C06
 open Huginn.Sig Huginn.SigText Huginn.SigText.Spec
+set_option linter.unusedSimpArgs false
 
-theorem placeholder_true : True := trivial
+/-- **TCP signatures print to text that parses back to the same value** — every value whose
+numeric fields fit their Rust widths; option and quirk lists of any length, also empty. -/
+theorem tcp_print_parse (s : TcpSig) (h : WFTcp s) : parseTcpSigFull (printTcpSig s) = some s := by
+  obtain ⟨ver, ittl, olen, mss, wsize, wscale, olayout, quirks, pclass⟩ := s
+  have e : printTcpSig ⟨ver, ittl, olen, mss, wsize, wscale, olayout, quirks, pclass⟩ =
+      printIpVersion ver ++ (':' :: (printTtl ittl ++ (':' :: (natDigits olen ++ (':' :: (printOptNat mss ++
+      (':' :: (printWSize wsize ++ (',' :: (printOptNat wscale ++ (':' :: (joinComma printOpt olayout ++
+      (':' :: (joinComma printQuirk quirks ++ (':' :: (printPayload pclass ++ [])))))))))))))))) := by
+    simp [printTcpSig]
+  have hol : ∀ r, sepList0 comma parseOpt (joinComma printOpt olayout ++ ':' :: r) = some (olayout, ':' :: r) :=
+    fun r => sepList0_joinComma parseOpt printOpt olayout (Or.inr ⟨r, rfl⟩)
+      (fun o ho r' hr' => parseOpt_print o (h.olayout o ho) hr') (fun _ => parseOpt_colon r)
+  have hq : ∀ r, sepList0 comma parseQuirk (joinComma printQuirk quirks ++ ':' :: r) = some (quirks, ':' :: r) :=
+    fun r => sepList0_joinComma parseQuirk printQuirk quirks (Or.inr ⟨r, rfl⟩)
+      (fun q _ r' _ => parseQuirk_print q r') (fun _ => parseQuirk_colon r)
+  unfold parseTcpSigFull full parseTcpSig
+  rw [e]
+  simp only [parseIpVersion_print, colon_cons, comma_cons, Option.bind_eq_bind, Option.bind_some,
+    fun r => parseTtl_print ittl h.ittl (Delim.colon r),
+    fun r => number_natDigits (show olen ≤ u8Max from h.olen) (NoDigit.cons (by decide : ':'.isDigit = false) r),
+    fun r => optNum_print u16Max mss h.mss (Delim.colon r),
+    fun r => parseWSize_print wsize h.wsize (Delim.comma r),
+    fun r => optNum_print u8Max wscale h.wscale (Delim.colon r),
+    hol, hq, parsePayload_print, Option.pure_def]
+
+/-- non-vacuity: a well-formed signature with every kind of field (and one with empty lists) -/
+example : WFTcp ⟨.v4, .distance 64 3, 0, some 1460, .mss 20, some 7, [.mss, .eol 2, .unknown 77], [.df, .nonZeroID], .zero⟩ ∧
+    WFTcp ⟨.any, .bad 255, 255, none, .any, none, [], [], .any⟩ := by decide
+
+/-! ### HTTP signatures -/
+
+/-- The full statement of the property for HTTP signatures: every value over the vocabulary
+(also with an empty `horder`) prints to text that parses back to itself.  **False on the current
+tree** (`kf_httpEmptyHorder_witness`); proved outside `KF.C06.httpEmptyHorder` below. -/
+def FullHttpPrintParse : Prop :=
+  ∀ s : HttpSigL, WFHttpL s → parseHttpSigFullL (printHttpSigL s) = some s
+
+/-- **HTTP signatures print to text that parses back to the same value**, for every value over
+the vocabulary with at least one header in `horder`.  (Header names in `horder` may even be empty;
+only `habsent` needs non-empty names.) -/
+theorem http_print_parse_partial (s : HttpSigL) (hv : versionInGrammar s.version = true)
+    (hh : ∀ h ∈ s.horder, WFHdrL h) (ha : ∀ h ∈ s.habsent, WFHdrL h ∧ h.name ≠ [])
+    (hkf : ¬ Huginn.KF.C06.httpEmptyHorder s) :
+    parseHttpSigFullL (printHttpSigL s) = some s := by
+  obtain ⟨ver, horder, habsent, expsw⟩ := s
+  cases horder with
+  | nil => exact absurd rfl hkf
+  | cons x xs =>
+    have e : printHttpSigL ⟨ver, x :: xs, habsent, expsw⟩ =
+        printHttpVersion ver ++ (':' :: (joinComma printHeaderL (x :: xs) ++
+          (':' :: (joinComma printHeaderL habsent ++ (':' :: expsw))))) := by
+      simp [printHttpSigL]
+    have h1 : ∀ r, sepList1 comma parseHeaderL (joinComma printHeaderL (x :: xs) ++ ':' :: r) =
+        some (x :: xs, ':' :: r) :=
+      fun r => sepList1_joinComma parseHeaderL printHeaderL x xs (Or.inr ⟨r, rfl⟩)
+        (fun h hm r' hr' => parseHeaderL_print h (hh h hm) hr')
+    obtain ⟨L, h2, h3⟩ := habsent_parse habsent ha expsw
+    unfold parseHttpSigFullL full parseHttpSigL
+    rw [e]
+    simp only [parseHttpVersion_print ver hv, colon_cons, Option.bind_eq_bind, Option.bind_some, h1, h2,
+      rest, Option.pure_def, Option.getD_some, h3]
+
+/-- the same on the shared `Sig` types (`String` fields) -/
+theorem http_print_parse (s : HttpSig) (h : WFHttp s) (hkf : ¬ Huginn.KF.C06.httpEmptyHorder (.ofSig s)) :
+    parseHttpSigFull (printHttpSig s) = some s := by
+  have := http_print_parse_partial (.ofSig s) h.version (fun x hx => (h.horder x hx).1) h.habsent hkf
+  unfold parseHttpSigFull printHttpSig
+  rw [this]
+  obtain ⟨ver, horder, habsent, expsw⟩ := s
+  simp [HttpSigL.toSig, HttpSigL.ofSig, HeaderL.toSig, HeaderL.ofSig, String.ofList_toList, Function.comp_def]
+
+/-- the full statement fails inside the known-finding class: `1:::x` comes back with one header -/
+theorem kf_httpEmptyHorder_witness : ¬ FullHttpPrintParse := by
+  intro h
+  have := h ⟨.v11, [], [], ['x']⟩ (by decide)
+  revert this
+  decide +kernel
+
+/-- non-vacuity of `http_print_parse_partial`: a vocabulary value with every header shape -/
+example : WFHttpL ⟨.any, [⟨false, "Host".toList, none⟩, ⟨true, "Accept".toList, some ",*/*;q=".toList⟩],
+    [⟨false, "Keep-Alive".toList, none⟩], "Firefox/".toList⟩ ∧
+    ¬ Huginn.KF.C06.httpEmptyHorder ⟨.any, [⟨false, "Host".toList, none⟩], [], []⟩ := by decide +kernel
 
 end Huginn.Props.C06
